@@ -134,8 +134,15 @@ def projects(draw, max_steps=9, allow_always=True, allow_clash=False):
                 'g{}_{}.{}'.format(sid, j, draw(st.sampled_from(
                     ['c', 'txt', 'txt', 'h', 'h'])))
                 for j in range(nout)]
-            if draw(st.integers(0, 3)) == 0:
+            k = draw(st.integers(0, 5))
+            if k == 0:
                 step['outs'] = ['gen/' + o for o in step['outs']]
+            elif k == 1 and nout > 1:
+                # outputs in different directories (some used by nothing
+                # else), the first one in the build root
+                step['outs'] = [step['outs'][0]] + [
+                    'only{}_{}/'.format(sid, j) + o
+                    for j, o in enumerate(step['outs'][1:])]
             step['files'] = pick(file_refs('cdhb'), 0, 3)
             step['two_lines'] = draw(st.integers(0, 2)) == 0
             step['cmd_refs'] = draw(st.booleans())
